@@ -160,3 +160,134 @@ Proof.
     unfold isgap. destruct (beqb b x2d); [discriminate | reflexivity].
   - intros r Hr. destruct rs as [|r0 t]; [destruct Hr|]. apply Hrect; [exact Hr | left; reflexivity].
 Qed.
+
+(* ---- with gaps anywhere: every row of the result has the same length ------------------------------------ *)
+From GA.Proofs Require Import TranslateProofs.
+
+Lemma filter_length_le {A} (f : A -> bool) l : length (filter f l) <= length l.
+Proof. induction l as [|x t IH]; [cbn; lia|]. cbn [filter]. destruct (f x); cbn [length]; lia. Qed.
+
+Lemma comp_piece_length code s i0 i2 : length (comp_piece code s i0 i2 ((i2 + 1 - i0) / 3)) = (i2 + 1 - i0) / 3.
+Proof.
+  unfold comp_piece. set (naa := (i2 + 1 - i0) / 3).
+  set (tmp := filter (fun b => negb (isgap b)) (firstn (i2 + 1 - i0) (skipn i0 s))).
+  assert (Htmp : length tmp <= i2 + 1 - i0).
+  { unfold tmp. eapply Nat.le_trans; [apply filter_length_le|]. rewrite firstn_length. lia. }
+  destruct tmp as [|x t] eqn:E; [unfold repeatb; apply repeat_length|].
+  destruct (negb (Nat.eqb (Nat.modulo (length (x :: t)) 3) 0)); [unfold repeatb; apply repeat_length|].
+  rewrite app_length. unfold repeatb. rewrite repeat_length, translate_from_length.
+  assert (length (x :: t) / 3 <= naa) by (unfold naa; apply Nat.div_le_mono; [lia | exact Htmp]).
+  lia.
+Qed.
+
+Definition all_len (n : nat) (bufs : list (list byte)) : Prop := forall b, In b bufs -> length b = n.
+
+Lemma append_pieces_all_len code refid refpiece i0 i2 n : forall seqs bufs k,
+  length bufs = length seqs -> all_len n bufs -> length refpiece = (i2 + 1 - i0) / 3 ->
+  all_len (n + (i2 + 1 - i0) / 3) (append_pieces code k refid seqs bufs refpiece i0 i2 ((i2 + 1 - i0) / 3)) /\
+  length (append_pieces code k refid seqs bufs refpiece i0 i2 ((i2 + 1 - i0) / 3)) = length seqs.
+Proof.
+  induction seqs as [|s ss IH]; intros bufs k Hl Ha Hr; destruct bufs as [|b bs]; try discriminate.
+  - split; [intros x []| reflexivity].
+  - cbn [append_pieces]. destruct (IH bs (S k)) as [A1 A2]; [cbn in Hl; lia | intros x Hx; apply Ha; right; exact Hx | exact Hr|].
+    split; [|cbn [length]; rewrite A2; reflexivity].
+    intros x [<-|Hx]; [|apply A1; exact Hx].
+    rewrite app_length, (Ha b (or_introl eq_refl)). f_equal.
+    destruct (Nat.eqb k refid); [exact Hr | apply comp_piece_length].
+Qed.
+
+Lemma adv3_offsets ref alen : forall fuel i0 i1 i2 j0 j1 j2,
+  adv3 fuel ref alen i0 i1 i2 = (j0, j1, j2) -> j1 - j0 = i1 - i0 /\ j2 - j0 = i2 - i0 /\ i0 <= j0 /\ (i0 <= i1 -> i1 <= i2 -> j0 <= j1 /\ j1 <= j2).
+Proof.
+  induction fuel as [|f IH]; intros i0 i1 i2 j0 j1 j2 H; cbn [adv3] in H.
+  - injection H as <- <- <-. lia.
+  - destruct (Nat.ltb i2 alen && isgap (at_ ref i0)).
+    + apply IH in H. lia.
+    + injection H as <- <- <-. lia.
+Qed.
+
+Lemma adv2_mono ref alen : forall fuel i1 i2 k1 k2, adv2 fuel ref alen i1 i2 = (k1, k2) -> k2 - k1 = i2 - i1 /\ i1 <= k1.
+Proof.
+  induction fuel as [|f IH]; intros i1 i2 k1 k2 H; cbn [adv2] in H.
+  - injection H as <- <-. lia.
+  - destruct (Nat.ltb i2 alen && isgap (at_ ref i1)).
+    + apply IH in H. lia.
+    + injection H as <- <-. lia.
+Qed.
+
+Lemma adv1_mono ref alen : forall fuel i2, i2 <= adv1 fuel ref alen i2.
+Proof.
+  induction fuel as [|f IH]; intros i2; cbn [adv1]; [lia|].
+  destruct (Nat.ltb i2 alen && isgap (at_ ref i2)); [|lia]. specialize (IH (S i2)). lia.
+Qed.
+
+Lemma byref_loop_S f code refid alen seqs bufs i0 i1 i2 :
+  byref_loop (S f) code refid alen seqs bufs i0 i1 i2 =
+      if negb (Nat.ltb i2 alen) then bufs else
+      let ref := nth refid seqs [] in
+      if isgap (at_ ref i0) && isgap (at_ ref i1) && isgap (at_ ref i2) then
+        let naa := (i2 + 1 - i0) / 3 in
+        let bufs' := append_pieces code 0 refid seqs bufs (repeatb x2d naa) i0 i2 naa in
+        byref_loop f code refid alen seqs bufs' (i2 + 1) (i2 + 2) (i2 + 3)
+      else
+        let '(j0, j1, j2) := adv3 alen ref alen i0 i1 i2 in
+        if negb (Nat.ltb j2 alen) then bufs else
+        let '(k1, k2) := adv2 alen ref alen j1 j2 in
+        if negb (Nat.ltb k2 alen) then bufs else
+        let l2 := adv1 alen ref alen k2 in
+        if negb (Nat.ltb l2 alen) then bufs else
+        let refaa := translate_codon code (at_ ref j0) (at_ ref k1) (at_ ref l2) in
+        let naa := (l2 + 1 - j0) / 3 in
+        let refpiece := refaa :: repeatb x2d (naa - 1) in
+        let bufs' := append_pieces code 0 refid seqs bufs refpiece j0 l2 naa in
+        byref_loop f code refid alen seqs bufs' (l2 + 1) (l2 + 2) (l2 + 3).
+Proof. reflexivity. Qed.
+
+Lemma byref_loop_all_len code refid alen seqs : forall fuel bufs i0 n,
+  length bufs = length seqs -> all_len n bufs ->
+  exists n', all_len n' (byref_loop fuel code refid alen seqs bufs i0 (i0 + 1) (i0 + 2)).
+Proof.
+  induction fuel as [|f IH]; intros bufs i0 n Hl Ha; [exists n; exact Ha|]. rewrite byref_loop_S.
+  destruct (negb (Nat.ltb (i0 + 2) alen)); [exists n; exact Ha|]. cbv zeta.
+  set (ref := nth refid seqs []).
+  destruct (isgap (at_ ref i0) && isgap (at_ ref (i0 + 1)) && isgap (at_ ref (i0 + 2))).
+  - cbv zeta.
+    destruct (append_pieces_all_len code refid (repeatb x2d ((i0 + 2 + 1 - i0) / 3)) i0 (i0 + 2) n seqs bufs 0 Hl Ha) as [A1 A2];
+      [unfold repeatb; apply repeat_length|].
+    replace (i0 + 2 + 2) with (i0 + 2 + 1 + 1) by lia. replace (i0 + 2 + 3) with (i0 + 2 + 1 + 2) by lia.
+    apply (IH _ (i0 + 2 + 1) _ A2 A1).
+  - destruct (adv3 alen ref alen i0 (i0 + 1) (i0 + 2)) as [[j0 j1] j2] eqn:E3.
+    destruct (adv3_offsets ref alen _ _ _ _ _ _ _ E3) as [O1 [O2 [O3 _]]].
+    destruct (negb (Nat.ltb j2 alen)); [exists n; exact Ha|].
+    destruct (adv2 alen ref alen j1 j2) as [k1 k2] eqn:E2.
+    destruct (adv2_mono ref alen _ _ _ _ _ E2) as [M1 M2].
+    destruct (negb (Nat.ltb k2 alen)); [exists n; exact Ha|].
+    set (l2 := adv1 alen ref alen k2).
+    pose proof (adv1_mono ref alen alen k2) as M3. fold l2 in M3.
+    destruct (negb (Nat.ltb l2 alen)); [exists n; exact Ha|]. cbv zeta.
+    assert (Hw : 3 <= l2 + 1 - j0) by lia.
+    destruct (append_pieces_all_len code refid
+                (translate_codon code (at_ ref j0) (at_ ref k1) (at_ ref l2) :: repeatb x2d ((l2 + 1 - j0) / 3 - 1))
+                j0 l2 n seqs bufs 0 Hl Ha) as [A1 A2].
+    { cbn [length]. unfold repeatb. rewrite repeat_length.
+      assert (1 <= (l2 + 1 - j0) / 3) by (apply Nat.div_le_lower_bound; lia). lia. }
+    replace (l2 + 2) with (l2 + 1 + 1) by lia. replace (l2 + 3) with (l2 + 1 + 2) by lia.
+    apply (IH _ (l2 + 1) _ A2 A1).
+Qed.
+
+(* every row of the reference-guided translation has the same length, whatever the gaps *)
+Theorem byref_rows_same_length alphabet gc phase refname (rs : list row) out :
+  translate_by_reference alphabet gc phase refname rs = Some out ->
+  forall r r', In r out -> In r' out -> length (snd r) = length (snd r').
+Proof.
+  intros H. unfold translate_by_reference in H.
+  destruct refname as [|c0 cn]; [discriminate|].
+  destruct (index_of_name (c0 :: cn) rs 0) as [refid|]; [|discriminate].
+  destruct (negb (Z.eqb alphabet NUCLEOTIDS) && negb (Z.eqb alphabet BOTH)); [discriminate|].
+  destruct (genetic_code gc) as [code|]; [|discriminate]. cbv zeta in H. injection H as <-.
+  destruct (byref_loop_all_len code refid (length (snd (hd ([], []) rs))) (map snd rs) (S (length (snd (hd ([], []) rs))))
+              (map (fun _ => []) rs) phase 0) as [n' Hn'].
+  - rewrite !map_length. reflexivity.
+  - intros b Hb. apply in_map_iff in Hb as [x [<- _]]. reflexivity.
+  - intros [rn rq] [rn' rq'] Hr Hr'. apply in_combine_r in Hr, Hr'. cbn [snd]. rewrite (Hn' _ Hr), (Hn' _ Hr'). reflexivity.
+Qed.
